@@ -33,7 +33,9 @@ Holds(n, s, a, t) ==
   IN
   CASE n = "OnePartPerImage"   -> NoDup(Imgs(t)) /\ 0 \notin SeqSet(Imgs(t))
     [] n = "DistinctNames"     -> NoDup([i \in DOMAIN t.media |-> t.media[i].name])
-    [] n = "ExtAndTypeOfActualFormat" -> \A m \in SeqSet(t.media) : m.img > 0 => (m.ext = FmtExt(U[m.img].fmt) /\ m.ctype = FmtCt(U[m.img].fmt))
+    \* (judged on the parts the step STORED: a part that was already there - loaded from a document another producer wrote, perhaps with
+    \* a content type spelled "image/jpg" - keeps the name and type it was loaded with, C02)
+    [] n = "ExtAndTypeOfActualFormat" -> \A m \in SeqSet(t.media) \ SeqSet(s.media) : m.img > 0 => (m.ext = FmtExt(U[m.img].fmt) /\ m.ctype = FmtCt(U[m.img].fmt))
     [] n = "StoredBytesExact"  -> 0 \notin SeqSet(Imgs(t))            \* every stored image part is byte-identical to a universe image
     [] n = "PictureBlobExact"  -> \A p \in SeqSet(t.pics) : p.blobOk
     [] n = "ImageStored"       -> adds => SeqSet(Imgs(t)) = SeqSet(Imgs(s)) \cup {a.img}
